@@ -51,7 +51,7 @@ func vfLogoutAct(b, slot int) vfAction { return vfReqAct(b, slot, "GET", vfLogou
 
 // ---------------------------------------------------------------- C01: the gate
 
-var vfTokenStates = []string{"valid", "near", "expired_in_skew", "expired", "bad_sig", "wrong_aud", "wrong_iss", "chunked", "none"}
+var vfTokenStates = []string{"valid", "near", "expired_in_skew", "expired", "bad_sig", "wrong_aud", "wrong_aud_azp", "wrong_iss", "chunked", "none"}
 
 func vfTokForState(r *vfRand, st string) *vfTokSpec {
 	t := vfPlainTok("user@example.com", 3600)
@@ -68,6 +68,9 @@ func vfTokForState(r *vfRand, st string) *vfTokSpec {
 		t.BadSig = true
 	case "wrong_aud":
 		t.WrongAud = true
+	case "wrong_aud_azp":
+		t.WrongAud = true
+		t.Extra = map[string]interface{}{"azp": vfClientID, "client_id": vfClientID}
 	case "wrong_iss":
 		t.WrongIss = true
 	case "chunked":
@@ -147,7 +150,7 @@ func vfGenC01(r *vfRand, id int) *vfWorldCase {
 			}
 			if r.chance(1, 2) {
 				q.Script = &vfTokenScript{Kind: vfPick(r, "ok", "ok", "invalid_grant", "server_error", "no_id_token"),
-					Spec: vfTokForState(r, vfPick(r, "valid", "valid", "bad_sig", "expired", "wrong_aud")), Rotate: r.chance(1, 2)}
+					Spec: vfTokForState(r, vfPick(r, "valid", "valid", "bad_sig", "expired", "wrong_aud", "wrong_aud_azp")), Rotate: r.chance(1, 2)}
 			}
 		}))
 	}
@@ -188,7 +191,10 @@ func vfCorpusC01() []*vfWorldCase {
 			q.Origin = "https://spa.example"
 			q.Headers = map[string]string{"Access-Control-Request-Method": "GET"}
 		})}}}
-	return []*vfWorldCase{sse, foreign, foreignLong, preflight, stale("no_id_token", false, nil), stale("no_id_token", true, nil),
+	azp := &vfWorldCase{Kind: "corpus", Script: vfScript{Cfg: vfWorldCfg{EndSession: true, GraceSec: 60}, Browsers: 1, Actions: append(
+		vfLogin(0, 0, "/app", vfOkScript(vfTokForState(nil, "wrong_aud_azp"))), vfGated(0, 0, "/app", 1),
+		vfAction{Kind: "mint", Browser: 0, Mint: &vfMintSpec{Auth: true, Email: "user@example.com", Tok: vfTokForState(nil, "wrong_aud_azp")}}, vfGated(0, 0, "/app", 1))}}
+	return []*vfWorldCase{sse, foreign, foreignLong, preflight, azp, stale("no_id_token", false, nil), stale("no_id_token", true, nil),
 		stale("ok", false, vfTokForState(nil, "expired")), stale("ok", false, vfTokForState(nil, "bad_sig")), edge}
 }
 
@@ -270,6 +276,9 @@ func vfGenC04(r *vfRand, id int) *vfWorldCase {
 	}
 	cs := &vfWorldCase{ID: id, Kind: "steady-session", Script: vfScript{Cfg: cfg, Browsers: 1}}
 	spec := vfPlainTok("user@example.com", 3600)
+	if r.chance(1, 5) { // lifetimes not far beyond the refresh grace period
+		spec.ExpIn = int64(cfg.GraceSec + []int{8, 30, 90, 119, 125, 200}[r.intn(6)])
+	}
 	if r.chance(2, 3) {
 		spec.Jti = fmt.Sprintf("jti-%x", r.next())
 	}
@@ -364,9 +373,13 @@ func vfCorpusC04() []*vfWorldCase {
 	for b := 0; b < 14; b++ {
 		many = append(many, vfGated(b, 0, fmt.Sprintf("/app/%d", b), 1))
 	}
+	// a token that is outside the refresh grace period but closer to its expiry than grace + the clock-skew tolerance
+	soon := vfOkScript(vfPlainTok("u@example.com", 150))
+	actsSoon := append(vfLogin(0, 0, "/app", soon), vfGated(0, 0, "/app", 1), vfReqAct(0, 0, "POST", "/app/save", 1, nil), vfGated(0, 0, "/app/2", 1))
 	return []*vfWorldCase{
 		{Kind: "corpus", Script: vfScript{Cfg: vfWorldCfg{EndSession: true, GraceSec: 60}, Browsers: 1, Actions: acts}},
 		{Kind: "corpus", Script: vfScript{Cfg: vfWorldCfg{EndSession: true, GraceSec: 60, RateLimit: 10}, Browsers: 14, Actions: many}},
+		{Kind: "corpus", Script: vfScript{Cfg: vfWorldCfg{EndSession: true, GraceSec: 60}, Browsers: 1, Actions: actsSoon}},
 	}
 }
 
@@ -377,6 +390,7 @@ var vfEmails = []interface{}{"alice@example.com", "bob@corp.example.org", "eve@e
 	"eve@examрle.com", "eve@example.co", "eve@example.comm"}
 
 var vfClaimShapes = []interface{}{nil, []interface{}{"admin"}, []interface{}{"staff", "dev"}, []interface{}{"nobody"}, []interface{}{},
+	[]interface{}{"guests,admin"}, []interface{}{"self-service, admin"}, []interface{}{"cn=guests,admin,dc=example"}, []interface{}{" admin"}, []interface{}{"admin;dev"}, []interface{}{"ADMIN"},
 	[]interface{}{1, "admin", nil}, []interface{}{1, 2}, "admin", map[string]interface{}{"admin": true}, 7}
 
 func vfGenC06(r *vfRand, id int) *vfWorldCase {
@@ -582,8 +596,18 @@ func vfCorpusC08() []*vfWorldCase {
 			q.Script = &vfTokenScript{Kind: "ok", Spec: vfPlainTok("admin@example.com", 3600), Rotate: true, ForgeLast: true}
 		}),
 		vfGated(0, 0, "/app", 1)}}}
+	// a refresh answered with a properly signed ID token that names NO e-mail (claim absent / empty / not a string):
+	// the session is not continued under the identity it had before
+	noMail := func(e interface{}, js bool) *vfWorldCase {
+		sp := vfPlainTok("", 3600)
+		sp.Email = e
+		return &vfWorldCase{Kind: "corpus", Script: vfScript{Cfg: cfg, Browsers: 1, Actions: []vfAction{
+			{Kind: "mint", Browser: 0, Mint: &vfMintSpec{Auth: true, Email: "alice@example.com", Tok: vfTokForState(nil, "near"), RefreshLen: 24}},
+			vfReqAct(0, 0, "GET", "/app", 1, func(q *vfReq) { q.AcceptJS = js; q.Script = &vfTokenScript{Kind: "ok", Spec: sp, Rotate: true} }),
+			vfGated(0, 0, "/app", 1)}}}
+	}
 	return []*vfWorldCase{mk("ok", false), mk("invalid_grant", false), mk("invalid_grant", true), mk("server_error", true),
-		mk("drop", false), mk("drop", true), forged}
+		mk("drop", false), mk("drop", true), forged, noMail(nil, false), noMail(nil, true), noMail("", false), noMail(42, true)}
 }
 
 // ---------------------------------------------------------------- C09 / C18: every cookie of every flow (flags)
@@ -594,6 +618,7 @@ func vfGenC18(r *vfRand, id int) *vfWorldCase {
 	cs.Script.Cfg.ForceHTTPS = r.chance(1, 2)
 	// what the proxy in front says about the client's scheme: with forceHTTPS the cookies are Secure whatever it says
 	cs.Script.Cfg.ClientProto = vfPick(r, "", "http", "https", "http")
+	cs.Script.Cfg.ForeignCookies = r.chance(1, 3)
 	// long request URIs at the start of a login, around the length where the main cookie is largest
 	n := []int{10, 900, 1000, 1020, 1024, 1025, 1030, 1500, 1900, 1950, 1990, 2100, 4000}[r.intn(13)]
 	cs.Script.Actions = append([]vfAction{vfGated(0, 0, "/long?"+strings.Repeat("a", n), 1)}, cs.Script.Actions...)
@@ -634,6 +659,8 @@ func vfCorpusC18() []*vfWorldCase {
 	acts2 := append(vfLogin(0, 0, "/app", sc2), vfAction{Kind: "tamper", Browser: 0, Tamper: "drop", Name: "a1"}, vfGated(0, 0, "/app/deep/page", 1), vfLogoutAct(0, 0))
 	acts2 = append(acts2, vfLogin(0, 0, "/app", sc2)...)
 	out = append(out, &vfWorldCase{Kind: "corpus", Script: vfScript{Cfg: vfWorldCfg{EndSession: true, GraceSec: 60}, Browsers: 1, Actions: acts2}})
+	// other applications' cookies with look-alike names in the same browser: login with chunked tokens, a smaller refresh, logout
+	out = append(out, &vfWorldCase{Kind: "corpus", Script: vfScript{Cfg: vfWorldCfg{EndSession: true, GraceSec: 7200, ForeignCookies: true}, Browsers: 1, Actions: acts}})
 	return out
 }
 
@@ -658,8 +685,22 @@ func vfGenC09(r *vfRand, id int) *vfWorldCase {
 		return sc
 	}
 	acts := vfLogin(0, 0, "/app", mk())
+	if r.chance(1, 3) {
+		// a login whose cookies are joined, before the provider sends the browser back, by hand-written look-alikes;
+		// it starts at "/" or at a very long URI (neither leaves a return target of its own in the session)
+		tgt := "/"
+		if r.chance(1, 2) {
+			tgt = "/reports/deep?filter=" + strings.Repeat("v", 1000+r.intn(1800))
+		}
+		lg := vfLogin(0, 0, tgt, mk())
+		acts = append(lg[:2:2], vfAction{Kind: "tamper", Browser: 0, Tamper: "plant"}, lg[2])
+	}
 	acts = append(acts, vfLogin(1, 0, "/other", mk())...)
 	acts = append(acts, vfGated(0, 0, "/app", 1), vfGated(1, 0, "/other", 1), vfGated(0, 0, "/app/2", 1))
+	if r.chance(1, 3) {
+		acts = append(acts, vfAction{Kind: "tamper", Browser: 1, Tamper: "plant"}, vfGated(1, 0, "/other", 1), vfGated(1, 0, "/logout", 1),
+			vfGated(1, 0, "/other/again", 1))
+	}
 	for i := 1 + r.intn(4); i > 0; i-- {
 		a := vfAction{Kind: "tamper", Browser: 0, Tamper: vfPick(r, "swap", "swap", "copy", "flip", "truncate", "junk"),
 			Name: vfPick(r, "m", "a", "r", "a0", "a1", "r0", "r1"), Name2: vfPick(r, "a", "r", "m", "a0", "r0", "a1"), From: 1}
@@ -700,7 +741,16 @@ func vfCorpusC09() []*vfWorldCase {
 			vfGated(0, 0, "/app", 1), vfAction{Kind: "newinst", Slot: 0}, vfGated(0, 0, "/app/2", 1), vfGated(1, 0, "/b", 1))
 		return &vfWorldCase{Kind: "corpus", Script: vfScript{Cfg: vfWorldCfg{EndSession: true, GraceSec: 60, ForeignDefaultKey: true}, Browsers: 2, Actions: acts}}
 	}
-	return append(vfCorpusC07(), swap("a", "r"), swap("m", "a"), swap("r", "m"), other(false), other(true), pub())
+	// hand-written cookies with look-alike names arrive with the provider's answer of a login started at "/" and
+	// of one started at a very long URI, and with ordinary requests before and after a login
+	plant := func(tgt string) *vfWorldCase {
+		lg := vfLogin(0, 0, tgt, sc)
+		acts := []vfAction{{Kind: "tamper", Browser: 0, Tamper: "plant"}, lg[0], lg[1], {Kind: "tamper", Browser: 0, Tamper: "plant"}, lg[2],
+			vfGated(0, 0, "/app", 1), {Kind: "tamper", Browser: 0, Tamper: "plant"}, vfGated(0, 0, "/app/2", 1), vfGated(0, 0, "/logout", 1), vfGated(0, 0, "/", 1)}
+		return &vfWorldCase{Kind: "corpus", Script: vfScript{Cfg: vfWorldCfg{EndSession: true, GraceSec: 60}, Browsers: 1, Actions: acts}}
+	}
+	return append(vfCorpusC07(), swap("a", "r"), swap("m", "a"), swap("r", "m"), other(false), other(true), pub(),
+		plant("/"), plant("/app"), plant("/reports/deep?filter="+strings.Repeat("v", 1500)), plant("/reports/"+strings.Repeat("d/", 700)+"x"))
 }
 
 // ---------------------------------------------------------------- C10: identity headers
@@ -912,6 +962,12 @@ func vfGenC15(r *vfRand, id int) *vfWorldCase {
 		if r.chance(1, 4) { // other proxy headers naming hosts: none of them says where the client is
 			q.Headers = map[string]string{vfPick(r, "X-Forwarded-Server", "X-Original-Host", "X-Host", "Forwarded"): vfPick(r, "edge-7.internal", "evil.example.net", "host=evil.example.net;proto=https")}
 		}
+		if r.chance(1, 4) { // headers a path-rewriting proxy adds: nothing of them may end up in a redirect target unchecked
+			if q.Headers == nil {
+				q.Headers = map[string]string{}
+			}
+			q.Headers[vfPick(r, "X-Forwarded-Prefix", "X-Forwarded-Uri", "X-Original-Uri", "X-Replaced-Path")] = vfPick(r, "/app/../\\evil.example", "//evil.example", "/\\evil.example/x", "/portal", "https://evil.example/")
+		}
 	}
 	acts := []vfAction{vfReqAct(0, 0, "GET", uri, 1, mod), {Kind: "authorize", Browser: 0},
 		{Kind: "callback", Browser: 0, Script: vfOkScript(vfPlainTok("user@example.com", 3600))},
@@ -948,7 +1004,14 @@ func vfCorpusC15() []*vfWorldCase {
 	// two middleware instances for two tenants of one provider host: each sends its users to ITS tenant's endpoints
 	tenants := []vfAction{vfGated(0, 0, "/a", 1), {Kind: "newinst", Slot: 1, Realm: "/realms/b"}, vfGated(0, 1, "/b", 1), vfLogoutAct(0, 1),
 		vfGated(0, 0, "/a2", 1), vfLogoutAct(0, 0), {Kind: "newinst", Slot: 0}, vfGated(0, 0, "/a3", 1), vfGated(0, 1, "/b2", 1)}
+	pfx := func(h, v string) *vfWorldCase {
+		mod := func(q *vfReq) { q.Headers = map[string]string{h: v} }
+		a := []vfAction{vfReqAct(0, 0, "GET", "/dash", 1, mod), {Kind: "authorize", Browser: 0},
+			{Kind: "callback", Browser: 0, Script: vfOkScript(vfPlainTok("user@example.com", 3600))}, vfReqAct(0, 0, "GET", "/dash", 1, mod)}
+		return &vfWorldCase{Kind: "corpus", Script: vfScript{Cfg: vfWorldCfg{EndSession: true, GraceSec: 60}, Browsers: 1, Actions: a}}
+	}
 	return []*vfWorldCase{
+		pfx("X-Forwarded-Prefix", "/app/../\\evil.example"), pfx("X-Forwarded-Prefix", "//evil.example"), pfx("X-Forwarded-Uri", "//evil.example/x"),
 		{Kind: "corpus", Script: vfScript{Cfg: vfWorldCfg{EndSession: true, GraceSec: 60}, Browsers: 1, Actions: acts}},
 		{Kind: "corpus", Script: vfScript{Cfg: vfWorldCfg{EndSession: false, GraceSec: 60, PostLogout: "/bye"}, Browsers: 1, Actions: acts2}},
 		{Kind: "corpus", Script: vfScript{Cfg: vfWorldCfg{EndSession: true, GraceSec: 60}, Browsers: 1, Actions: acts2}},
@@ -959,7 +1022,8 @@ func vfCorpusC15() []*vfWorldCase {
 
 // ---------------------------------------------------------------- C16: error bodies
 
-var vfMarkup = []string{"<script>alert(1)</script>", "\"><img src=x onerror=alert(2)>", "'><svg/onload=alert(3)>", "a&lt;b & c", "</p><h1>x</h1>",
+var vfMarkup = []string{"&amp;<script>alert(4)</script>", "Tom &#39;n&#39; <b onmouseover=alert(5)>Jerry</b>", "a&lt;b<img src=x onerror=alert(6)>", "x&param=<svg/onload=alert(7)>",
+	"<script>alert(1)</script>", "\"><img src=x onerror=alert(2)>", "'><svg/onload=alert(3)>", "a&lt;b & c", "</p><h1>x</h1>",
 	"plain text", "éè<b>", "\xff\xfe<i>", "{{.}}", "%3Cscript%3E", "\\u003cscript\\u003e", "line1\nline2<br>"}
 
 func vfGenC16(r *vfRand, id int) *vfWorldCase {
@@ -1069,8 +1133,12 @@ func vfGenC17(r *vfRand, id int) *vfWorldCase {
 		}
 		acts = append(acts, a)
 	}
-	// the request(s) with the bad state
-	for i := 1 + r.intn(2); i > 0; i-- {
+	// the request(s) with the bad state (sometimes a page with many sub-resources: a burst of uncompleted login redirects)
+	nbad := 1 + r.intn(2)
+	if r.chance(1, 5) {
+		nbad = 6 + r.intn(5)
+	}
+	for i := nbad; i > 0; i-- {
 		target := vfPick(r, "/app", "/", vfCallbackPath+"?state=x&code=y", vfLogoutPath, "/app?x="+strings.Repeat("u", []int{10, 1000, 1024, 1900, 2000, 2100, 3000, 8000, 16000}[r.intn(9)]))
 		acts = append(acts, vfReqAct(0, 0, vfPick(r, "GET", "POST"), target, 1, func(q *vfReq) {
 			q.AcceptJS = r.chance(1, 4)
@@ -1148,7 +1216,13 @@ func vfCorpusC17() []*vfWorldCase {
 			vfReqAct(0, 0, "GET", "/app", 1, func(q *vfReq) { q.XFHost, q.XFProto = host, proto }))
 		return &vfWorldCase{Kind: "corpus", Script: vfScript{Cfg: cfg, Browsers: 1, Actions: acts}}
 	}
-	return []*vfWorldCase{junk("m"), junk("a"), junk("r"), huge("m"), huge("a"), huge("r"), huge("a0"), old, long,
+	var burst []vfAction
+	for i := 0; i < 9; i++ {
+		burst = append(burst, vfGated(0, 0, fmt.Sprintf("/page/asset-%d.js", i), 1))
+	}
+	burst = append(burst, heal...)
+	many := &vfWorldCase{Kind: "corpus", Script: vfScript{Cfg: cfg, Browsers: 1, Actions: burst}}
+	return []*vfWorldCase{many, junk("m"), junk("a"), junk("r"), huge("m"), huge("a"), huge("r"), huge("a0"), old, long,
 		hdr("bad host", ""), hdr("%", "ht tp"), hdr("a.example:80a", "https"), hdr("[::1", ""),
 		chunkHeal(6000, 3000, "flip", "a0"), chunkHeal(6000, 3000, "junk", "a1"), chunkHeal(9000, 4400, "truncate", "a0"),
 		chunkHeal(3000, 6000, "junk", "a0"), chunkHeal(6000, 6000, "junk", "a2")}
